@@ -88,7 +88,7 @@ func Path(n int) *DenseGraph {
 	}
 
 	degrees := make([]int, n)
-	if n > 0 {
+	if n > 1 {
 		degrees[0] = 1
 		degrees[n-1] = 1
 		for i := 1; i < n-1; i++ {
